@@ -102,6 +102,8 @@ def props_of_failure(f):
             ps.append("C10")
         if "lock" in f:
             ps.append("C18")
+    if "(after a panic in op" in f and "C18" not in ps:
+        ps.append("C18")
     if tag in ("answer:cip",) and "panic" not in f:
         ps = [p for p in ps if p != "C18"]
     return ps
@@ -131,17 +133,19 @@ def run(seed, cases, max_ops=60, max_keys=40, tag="seq", life=False):
             lo = open(ops).read().split("\n")
             la = open(impl).read().split("\n")
             lb = open(model).read().split("\n")
-            case, start = None, 0
+            case, start, panic_seen = None, 0, False
             if len(la) != len(lb):
                 res["diffs"].append({"case": "-", "op": "-", "impl": "%d lines" % len(la), "model": "%d lines" % len(lb),
                                      "classes": ["C02"], "opi": -1})
             for i, (o, x, y) in enumerate(zip(lo, la, lb)):
                 if o.startswith("# case"):
-                    case, start = o, i
+                    case, start, panic_seen = o, i, False
                     continue
+                if x == "panic" or y == "panic":
+                    panic_seen = True
                 if x != y:
                     res["diffs"].append({"case": case, "opi": i - start - 1, "op": o[:300], "impl": x[:600], "model": y[:600],
-                                         "classes": sorted(classify(o, x, y)),
+                                         "classes": sorted(classify(o, x, y) | ({"C18"} if panic_seen else set())),
                                          "prefix": lo[start + 1:i + 1] if i - start < 400 else lo[i - 30:i + 1]})
         else:
             res["model_error"] = p.stderr.decode("utf-8", "replace")[-1000:]
